@@ -119,6 +119,17 @@ def check_mesh(ctx, name, quick):
                 except Exception as exc:  # noqa: BLE001
                     ctx.violation("gmres/exception:%s" % type(exc).__name__, case, repr(exc))
                     continue
+                # differential guard: restarted GMRES with an iteration cap is not guaranteed to converge; the library calls scipy with a
+                # legacy callback (maxiter then counts inner iterations).  If scipy itself, called the same way on the dense reference matrix,
+                # does not reach the tolerance, the setting is outside the property's "well-conditioned ... converges" premise.
+                import scipy.sparse.linalg as _sla
+
+                Mref = S if strong else W
+                _, ref_info = _sla.gmres(Mref, Mref @ x, rtol=tol, restart=restart, maxiter=maxiter, callback=lambda r_: None)
+                if ref_info != 0:
+                    ctx.declined += 1
+                    ctx.cover("gmres_settings_where_scipy_itself_stalls", (restart, maxiter, tol))
+                    continue
                 ctx.case((name, label, "gmres", case0["rhs"], tol, restart, maxiter, strong, rr, ric), sub="gmres",
                          sample=case if len(ctx.samples) < 3 and strong and rr else None)
                 judge(ctx, "gmres", case, out, rr, ric, x, W, S, strong, kw, ks, tol, A, blocked, b, False)
